@@ -783,10 +783,17 @@ func (p *printer) funcDecl(f *Func) {
 		p.w("(" + f.Recv + " *" + f.RecvTy + ") ")
 		name = strings.SplitN(f.Name, ".", 2)[1]
 	}
+	// every second function (by name) writes neighbouring parameters of one type as a group: a, b T
+	group := 0
+	for _, ch := range f.Name {
+		group += int(ch)
+	}
 	var ps []string
 	for i, n := range f.Params {
 		if f.Variadic && i == len(f.Params)-1 {
 			ps = append(ps, n+" ..."+f.PTypes[i].Elem.Src(p.goMode))
+		} else if group%2 == 0 && i+1 < len(f.Params) && !(f.Variadic && i+1 == len(f.Params)-1) && f.PTypes[i].Src(p.goMode) == f.PTypes[i+1].Src(p.goMode) {
+			ps = append(ps, n)
 		} else {
 			ps = append(ps, n+" "+f.PTypes[i].Src(p.goMode))
 		}
